@@ -363,16 +363,48 @@ def mk_not(v):
 NEG_OPS = {"!=", "is not", "not in"}
 
 
+def assume(v, cond, truth: bool):
+    """v under the assumption that `cond` is `truth`: conditionals / boolean operands testing exactly `cond` collapse"""
+    if not isinstance(v, tuple) or not v or cond[0] == "c":
+        return v
+    if v == cond:
+        return C(truth)
+    if v[0] == "if" and v[1] == cond:
+        return assume(v[2] if truth else v[3], cond, truth)
+    if v[0] in ("if", "not", "bool", "when", "list", "s", "h", "spread") or (v[0] == "call" and v[1] in ("any", "all")):
+        new = tuple(assume(x, cond, truth) if isinstance(x, tuple) else x for x in v)
+        return renorm_deep(new) if new != v else v
+    return v
+
+
+def renorm_deep(v):
+    if not isinstance(v, tuple) or not v:
+        return v
+    if v[0] == "bool" and v[1] == "and":
+        out = C(True)
+        for x in v[2]:
+            out = mk_and(out, x)
+        return out
+    return renorm(v)
+
+
 def mk_if(cond, a, b):
     if cond[0] == "c":
         return a if cond[1] else b
     if a == b:
         return a
+    a2, b2 = assume(a, cond, True), assume(b, cond, False)
+    if a2 != a or b2 != b:
+        return mk_if(cond, a2, b2)
     # canonical polarity: positive comparison first
     if cond[0] == "not":
         return mk_if(cond[1], b, a)
     if cond[0] == "cmp" and cond[1] in NEG_OPS:
         return mk_if(mk_not(cond), b, a)
+    if cond[0] == "call" and cond[1] == "all" and len(cond[2]) == 1 and cond[2][0][0] == "comp" and len(cond[2][0][3]) == 1:
+        it_ = cond[2][0][3][0]
+        if it_[0] == "not" or (it_[0] == "cmp" and it_[1] in NEG_OPS):
+            return mk_if(mk_not(cond), b, a)  # all(not p) as a condition is written not any(p)
     # inside the true branch of `X == <constant>` X is that constant
     eqs = [c for c in ((cond[2] if cond[0] == "bool" and cond[1] == "and" else (cond,))) if c[0] == "cmp" and c[1] == "==" and c[3][0] == "c" and c[2][0] in ("sym", "attr")]
     if eqs:
@@ -494,6 +526,12 @@ def mk_cmp(op, a, b):
             for q in parts[1:]:
                 r = mk_or(r, q)
             return r if op == "in" else mk_not(r)
+    if b == NONE and op in ("is", "is not", "==", "!="):
+        if a[0] == "if":
+            return mk_if(a[1], mk_cmp(op, a[2], b), mk_cmp(op, a[3], b))
+        # an element selected by a test on one of its attributes is an object, not None
+        if a[0] == "sub" and a[1][0] == "comp" and a[1][4] and has(a[1][4], "attr") and a[1][3] == (("bv", a[1][1]),):
+            return C(op in ("is not", "!="))
     # D.get(k) is None  (written D[k] here)  is  k not in D
     if b == NONE and op in ("is", "is not", "==", "!=") and a[0] == "sub" and a[1][0] in ("sym", "attr"):
         return mk_cmp("not in" if op in ("is", "==") else "in", a[2], a[1])
